@@ -85,6 +85,12 @@ type world struct {
 	fileContent []byte
 	fileMTime   time.Time
 	// through the real watcher loop (coalescing of raw file system events)
+	// a save that lands while the handler is in the middle of an event
+	midAt    int // the handler's k-th file system call (-1: none)
+	midVar   int
+	osCalls  int
+	midSaved bool
+	readVar  int // the variant the handler actually read during the current event
 	useLoop bool
 	raw     *fsnotify.Watcher
 	qmu     sync.Mutex
@@ -166,6 +172,24 @@ func (w *world) writeSource(v int, content string) {
 }
 
 // watch hands the real handler an event for the source file.
+// onOSCall is the disk seam of the handler: the editor may save right here.
+func (w *world) onOSCall(op, path string) {
+	if w.midAt >= 0 {
+		w.osCalls++
+		if w.osCalls-1 == w.midAt {
+			// the hook runs before the call proper: a ReadFile at this very call sees the new content
+			time.Sleep(time.Millisecond)
+			w.filePath, w.fileContent, w.fileMTime = w.path(w.c), []byte(w.fam.Variants[w.midVar].Source), time.Now()
+			w.fileVar = w.midVar
+			w.midSaved = true
+			w.k.Count("fault_save_lands_during_handling", 1)
+		}
+	}
+	if path == w.filePath && op == "ReadFile" {
+		w.readVar = w.fileVar
+	}
+}
+
 func (w *world) watch() (generatecmd.GenerateResult, error) {
 	w.tick()
 	if w.useLoop {
@@ -175,17 +199,27 @@ func (w *world) watch() (generatecmd.GenerateResult, error) {
 		}
 		w.qmu.Unlock()
 	}
+	w.osCalls, w.midSaved, w.readVar = 0, false, -2
 	r, err := w.h.HandleEvent(context.Background(), fsnotify.Event{Name: w.path(w.c), Op: fsnotify.Write})
-	w.pending = false
-	if err == nil && w.fileVar >= 0 {
+	w.midAt = -1
+	w.pending = w.midSaved // a save that landed meanwhile has its own event coming
+	if w.midSaved {
+		w.note("a save of v%d landed while the handler was at work (it read v%d)", w.fileVar, w.readVar)
+		if w.useLoop {
+			w.raw.Events <- fsnotify.Event{Name: w.path(w.c), Op: fsnotify.Write}
+			w.k.Quiesce()
+		}
+	}
+	seen := w.readVar // what the handler parsed (the file may have moved on since)
+	if err == nil && seen >= 0 {
 		if r.TextUpdated {
-			w.processed = w.fileVar
+			w.processed = seen
 			w.tWritten = time.Now()
-			w.held = append(w.held, w.fileVar)
-		} else if w.processed != w.fileVar && !r.GoUpdated {
-			// identical text file (hash suppression): the text file already says what fileVar says
-			w.processed = w.fileVar
-			w.held = append(w.held, w.fileVar)
+			w.held = append(w.held, seen)
+		} else if w.processed != seen && !r.GoUpdated {
+			// identical text file (hash suppression): the text file already says what the handler read
+			w.processed = seen
+			w.held = append(w.held, seen)
 		}
 	}
 	return r, err
@@ -195,6 +229,12 @@ func (w *world) watch() (generatecmd.GenerateResult, error) {
 // rebuilt from the current sources and restarted.
 func (w *world) rebuild() {
 	j := w.fileVar
+	latest, resave := w.fileVar, false
+	if w.midSaved && w.readVar >= 0 {
+		// the generated Go code on disk is that of what the handler read; the newer save is
+		// still to be handled, and is put back after the program has been rebuilt
+		j, resave = w.readVar, true
+	}
 	w.note("rebuild+restart: compiled variant is now v%d", j)
 	w.c = j
 	templruntime.ResetWatchCache()
@@ -208,6 +248,13 @@ func (w *world) rebuild() {
 	w.tWritten = time.Now()
 	w.held = []int{j}
 	w.k.Count("rebuilds", 1)
+	if resave {
+		if latest >= 0 {
+			w.writeSource(latest, w.fam.Variants[latest].Source)
+		} else {
+			w.writeSource(-1, "package v\n\ntempl Page(x string, y string, on bool) {\n\t<div")
+		}
+	}
 }
 
 func (w *world) check(when string) {
@@ -312,6 +359,9 @@ func (w *world) run() {
 			w.writeSource(j, w.fam.Variants[j].Source)
 			w.k.Count("edits", 1)
 		case 1:
+			if t.Chance(1, 5, "save-during-handling") {
+				w.midAt, w.midVar = t.Choose(6, "mid-at"), t.Choose(len(w.fam.Variants), "mid-var")
+			}
 			r, err := w.watch()
 			w.note("watch: GoUpdated=%v TextUpdated=%v err=%v", r.GoUpdated, r.TextUpdated, err != nil)
 			if err != nil {
@@ -403,10 +453,10 @@ func simWorld(rc *kernel.RunCtx) {
 	}
 	defer os.RemoveAll(root)
 	os.Setenv("TEMPL_DEV_MODE_ROOT", root)
-	w := &world{rc: rc, k: k, t: t, fam: families[t.Choose(len(families), "family")]}
+	w := &world{rc: rc, k: k, t: t, fam: families[t.Choose(len(families), "family")], midAt: -1, readVar: -2}
 	var simDur time.Duration
 	esc := kernel.Bubble(rc.TB, func() {
-		simos.SetHook(&simos.HookT{Now: time.Now, Overlay: func(p string) ([]byte, time.Time, bool) {
+		simos.SetHook(&simos.HookT{Now: time.Now, Before: func(op, path string) simos.Fault { w.onOSCall(op, path); return simos.Fault{} }, Overlay: func(p string) ([]byte, time.Time, bool) {
 			if p == w.filePath {
 				return w.fileContent, w.fileMTime, true
 			}
